@@ -47,9 +47,9 @@ func main() {
 		check(run, c)
 		return
 	}
-	n := run.Pick(400, 30000)
+	n := run.Pick(1200, 30000)
 	if run.Mode() == "race" {
-		n = run.Pick(40, 1500)
+		n = run.Pick(60, 1500)
 	}
 	const per = 10
 	run.Parallel(n/per, func(batch int) {
@@ -60,18 +60,31 @@ func main() {
 			if len(c.Pool) == 0 {
 				continue
 			}
-			if i%3 == 1 {
-				// one method, a random part of the pool registered one commit at a time: the program then adds, updates
-				// and removes siblings of existing children
+			// six kinds of (setup, program), each a sixth of the cases
+			switch i % 6 {
+			case 1, 4:
+				// one method, a random part of the pool registered one commit at a time: the directed program then adds,
+				// updates and removes a pattern others extend, and some of its extensions
 				c.Methods = hist.MethodPool[:1]
 				hist.GenPartial(r, &c.Case, 3, 5)
-			} else {
-				hist.GenOps(r, &c.Case, 4+r.IntN(10), 0, false)
-			}
-			c.Setup = len(c.Ops)
-			if i%3 != 0 {
+				c.Setup = len(c.Ops)
 				hist.GenProgram(r, &c.Case)
-			} else {
+			case 2:
+				hist.GenOps(r, &c.Case, 4+r.IntN(10), 0, false)
+				c.Setup = len(c.Ops)
+				hist.GenProgram(r, &c.Case)
+			case 5:
+				// every verb has a route or two; the program empties, removes and re-creates method roots between writes
+				for _, m := range c.Methods {
+					for k := 0; k < 1+r.IntN(2); k++ {
+						c.Ops = append(c.Ops, hist.Op{Kind: "handle", Method: m, Pattern: c.Pool[r.IntN(len(c.Pool))]})
+					}
+				}
+				c.Setup = len(c.Ops)
+				hist.GenRootProgram(r, &c.Case)
+			default:
+				hist.GenOps(r, &c.Case, 4+r.IntN(10), 0, false)
+				c.Setup = len(c.Ops)
 				hist.GenOps(r, &c.Case, c.Setup+2+r.IntN(7), 0, r.IntN(3) == 0)
 			}
 			check(run, c)
